@@ -122,9 +122,10 @@ def add_iiv(
         )
 
     for i in range(len(list_of_parameters)):
-        omega = Expr.symbol(f'IIV_{list_of_parameters[i]}')
+        # NOTE: The default names could be taken, e.g. by the eta of a renamed parameter
+        omega = create_symbol(model, f'IIV_{list_of_parameters[i]}')
         if not eta_names:
-            eta_name = f'ETA_{list_of_parameters[i]}'
+            eta_name = create_symbol(model, f'ETA_{list_of_parameters[i]}').name
         else:
             eta_name = eta_names[i]
 
